@@ -3,7 +3,7 @@ from props import LEAN_TB, CORR_TB, TRANS_TB
 PROP = dict(
     lean=["Tcell.Props.C12"], namespaces=["Tcell.Props.C12"], engines=["parse"],
     trusted_base=[LEAN_TB, CORR_TB, TRANS_TB,
-                  "hand-written model of the input parser (lean/Tcell/Model/Parser.lean, tscreen.go:1295-1812), tied to the code by the `parse` engine through tcell.VerifParser.Feed",
+                  "hand-written model of the input parser (lean/Tcell/Model/Parser.lean, tscreen.go:1295-1812), tied to the code by the `parse` engine through tcell.VerifParser.Feed; the theorems quantify over every Cfg, i.e. hold for the pinned and the strict (fixes/C02-sgr-strict.patch, +sgrfix) SGR loop",
                   "Spec/XtermMouse.lean is a reading of xterm ctlseqs (Mouse Tracking) and of the property text (held-button rule)",
                   "Go int modelled as 64-bit two's complement (wrap64)"],
     assumptions=["reported numbers fit a Go int (|b|,|x|,|y| < 2^63)", "the screen has at least one cell",
